@@ -276,3 +276,31 @@ Qed.
 (* 7 is tight: below it two indices dequantise 1 to the same value *)
 Theorem iq1_not_mono_below_7 : iq1 5 = iq1 6 /\ iq1 6 < iq1 7.
 Proof. vm_compute. split; reflexivity. Qed.
+
+(* ---- what the lossless-quantisation test case needs from the index it picks ------------- *)
+Lemma iq1_lt a b : 7 <= a -> a < b -> iq1 a < iq1 b.
+Proof.
+  intros Ha Hab.
+  assert (H : forall n, 0 <= n -> iq1 a < iq1 (a + 1 + n)).
+  { intros n Hn. pattern n. apply natlike_ind; [| |exact Hn].
+    - rewrite Z.add_0_r. apply iq1_strict_mono. exact Ha.
+    - intros x Hx IH. replace (a + 1 + Z.succ x) with ((a + 1 + x) + 1) by lia.
+      pose proof (iq1_strict_mono (a + 1 + x) ltac:(lia)). lia. }
+  specialize (H (b - a - 1) ltac:(lia)). replace (a + 1 + (b - a - 1)) with b in H by lia. exact H.
+Qed.
+
+(* with qindex = (largest matrix entry) + m and m >= 7, every subband is dequantised at an
+   effective index >= 7 and different matrix entries give different dequantised values of 1 *)
+Theorem distinct_for_matrix (m vmax v1 v2 : Z) :
+  7 <= m -> 0 <= v1 <= vmax -> 0 <= v2 <= vmax -> v1 <> v2 ->
+  let q := vmax + m in
+  7 <= Z.max (q - v1) 0 /\ 7 <= Z.max (q - v2) 0 /\
+  inverse_quant 1 (Z.max (q - v1) 0) <> inverse_quant 1 (Z.max (q - v2) 0).
+Proof.
+  intros Hm H1 H2 Hne q. unfold q.
+  rewrite !Z.max_l by lia. split; [lia|]. split; [lia|].
+  fold (iq1 (vmax + m - v1)). fold (iq1 (vmax + m - v2)).
+  destruct (Z_lt_le_dec v1 v2) as [Hlt|Hge].
+  - pose proof (iq1_lt (vmax + m - v2) (vmax + m - v1) ltac:(lia) ltac:(lia)). lia.
+  - pose proof (iq1_lt (vmax + m - v1) (vmax + m - v2) ltac:(lia) ltac:(lia)). lia.
+Qed.
